@@ -1,13 +1,19 @@
 import TflModel.Lemmas.Linear
+import TflModel.Lemmas.TopoSort
 import Mathlib.Algebra.Order.Field.Basic
 /-!
 # C06 — Linear / categorical weight constraints enforce signs, orderings, dominance, norm
 
 Model: `Tfl.Poset` (internal_utils.py), `Tfl.Linear.project`, `Tfl.Categorical.project`
 (one unit column; units are independent columns, see C09).
-The validity of the order returned by the model of `_topological_sort` is the hypothesis
-`ValidOrder`; its decidable form `validOrder` (`validOrder_sound`) is evaluated by the driver on
-every correspondence case.
+The theorems come in two forms: with the validity of the order returned by the model of
+`_topological_sort` as the hypothesis `ValidOrder` (its decidable form `validOrder`,
+`validOrder_sound`, is evaluated by the driver on every correspondence case), and — suffix
+`_acyclic` — with that hypothesis PROVED (`Tfl.Poset.topoSort_valid`, Lemmas/TopoSort.lean) from
+`Acyclic cs` (no non-empty path `x → … → x` along the pairs; implied by any rank function, by
+`∀ c ∈ cs, c.1 < c.2`, and by `validOrder cs o = true` for any `o`). A cyclic pair set makes the
+real code raise or return an unconstrained order; the layers' `verify_hyperparameters` do not
+exclude it, so it is a hypothesis here.
 -/
 namespace Tfl.C06
 open Tfl Tfl.Poset Tfl.Linear
@@ -286,6 +292,153 @@ example : Categorical.project (some 0) (some 1) [(0, 1), (0, 2), (1, 3), (2, 3)]
     ≠ .ok [5, 1, 2, -3] := by decide +kernel
 example : feasibleB [(0, 1), (0, 2), (1, 3), (2, 3)]
     (match Categorical.project (some 0) (some 1) [(0, 1), (0, 2), (1, 3), (2, 3)] [5, 1, 2, -3] with
+      | .ok o => o | .error _ => []) = true := by decide +kernel
+
+/-! ### the same with the validity of the modelled `_topological_sort` PROVED (`topoSort_valid`) -/
+
+theorem acyclic_swap {cs : Pairs} (h : Acyclic cs) : Acyclic (swapPairs cs) := by
+  have hrev : ∀ a b, Relation.TransGen (Edge (swapPairs cs)) a b → Relation.TransGen (Edge cs) b a := by
+    intro a b hab
+    induction hab with
+    | single e => exact .single (mem_swapPairs.mp e)
+    | tail _ e ih => exact Relation.TransGen.head (mem_swapPairs.mp e) ih
+  exact fun x hx => h x (hrev x x hx)
+
+/-- on a non-empty acyclic pair set whose indices lie inside the column, the approximate
+partial-order projection does not raise, and it is the sweep along a VALID order. -/
+theorem approxProject_ok_of_acyclic (cs : Pairs) (w : List Rat) (hne : cs ≠ []) (hacyc : Acyclic cs)
+    (hin : ∀ a, IsNode cs a → a < w.length) :
+    ∃ order, topoSort cs = some order ∧ ValidOrder cs order ∧ (∀ a ∈ order, a < w.length) ∧
+      approxProject cs w = .ok (approxProjectWith cs order w) := by
+  obtain ⟨order, ho⟩ := topoSort_some_of_nonempty cs hne hacyc
+  obtain ⟨hv, hnodes⟩ := topoSort_valid cs hacyc order ho
+  exact ⟨order, ho, hv, fun a ha => hin a (hnodes a ha), by simp [approxProject, ho]⟩
+
+/-- whatever `approxProject` returns on an acyclic pair set is the sweep along a valid order -/
+theorem approxProject_eq_of_acyclic (cs : Pairs) (w out : List Rat) (hacyc : Acyclic cs)
+    (hin : ∀ a, IsNode cs a → a < w.length) (h : approxProject cs w = .ok out) :
+    ∃ order, topoSort cs = some order ∧ ValidOrder cs order ∧ (∀ a ∈ order, a < w.length) ∧
+      out = approxProjectWith cs order w := by
+  unfold approxProject at h
+  split at h
+  · cases h
+  · rename_i order ho
+    obtain ⟨hv, hnodes⟩ := topoSort_valid cs hacyc order ho
+    exact ⟨order, ho, hv, fun a ha => hin a (hnodes a ha), (Except.ok.inj h).symm⟩
+
+/-- **C06 (categorical), order validity proved.** For every kernel column, every ACYCLIC pair
+set whose indices lie inside the column, and every bound configuration with
+`output_min ≤ output_max`, the constraint does not raise and returns values that satisfy every
+ordering pair and lie within the bounds. -/
+theorem categorical_pairs_and_bounds_acyclic (lo hi : Option Rat) (cs : Pairs) (w : List Rat)
+    (hacyc : Acyclic cs) (hin : ∀ a, IsNode cs a → a < w.length)
+    (hb : ∀ l h, lo = some l → hi = some h → l ≤ h) :
+    ∃ out, Categorical.project lo hi cs w = .ok out ∧
+      Feasible cs out ∧ out.length = w.length ∧
+      ∀ k, k < out.length → (∀ l, lo = some l → l ≤ getV out k) ∧ (∀ h', hi = some h' → getV out k ≤ h') := by
+  by_cases he : cs = []
+  · subst he
+    have hp : Categorical.project lo hi [] w = .ok (w.map (Categorical.clipOut lo hi)) := by
+      simp [Categorical.project, pure, Except.pure, bind, Except.bind]
+    exact ⟨_, hp, categorical_pairs_and_bounds lo hi [] w _ [] (fun h => absurd rfl h)
+      ⟨List.nodup_nil, fun i j hc => (by cases hc)⟩ (fun a ha => (by cases ha)) hb hp⟩
+  · obtain ⟨order, ho, hv, hin', hap⟩ := approxProject_ok_of_acyclic cs w he hacyc hin
+    have hne : cs.isEmpty = false := by cases cs <;> simp_all
+    have hp : Categorical.project lo hi cs w
+        = .ok ((approxProjectWith cs order w).map (Categorical.clipOut lo hi)) := by
+      simp [Categorical.project, hne, hap, pure, Except.pure, bind, Except.bind]
+    exact ⟨_, hp, categorical_pairs_and_bounds lo hi cs w _ order (fun _ => ho) hv hin' hb hp⟩
+
+/-- **C06 (categorical), feasible ⇒ unchanged**, for every acyclic pair set. -/
+theorem categorical_fixpoint_acyclic (lo hi : Option Rat) (cs : Pairs) (w : List Rat)
+    (hacyc : Acyclic cs) (hf : Feasible cs w)
+    (hlo : ∀ k, k < w.length → ∀ l, lo = some l → l ≤ getV w k)
+    (hhi : ∀ k, k < w.length → ∀ h, hi = some h → getV w k ≤ h) :
+    Categorical.project lo hi cs w = .ok w := by
+  by_cases he : cs = []
+  · exact categorical_fixpoint lo hi cs w [] (fun h => absurd he h) hf hlo hhi
+  · obtain ⟨order, ho⟩ := topoSort_some_of_nonempty cs he hacyc
+    exact categorical_fixpoint lo hi cs w order (fun _ => ho) hf hlo hhi
+
+/-- **C06 (Linear, monotonic dominance), order validity proved**: the dominance stage of
+`project` (`approxProject (swapPairs md)` on the sign-clipped column) does not raise on a non-empty
+acyclic dominance set, and its result orders every `(dominant, weak)` pair, keeps the signs and
+leaves unconstrained inputs alone. -/
+theorem linear_monotonic_dominance_acyclic (monos : List Int) (md : Pairs) (w : List Rat)
+    (hne : md ≠ []) (hacyc : Acyclic md) (hin : ∀ a, IsNode md a → a < w.length)
+    (hinc : ∀ c ∈ md, getM monos c.1 = 1 ∧ getM monos c.2 = 1) :
+    ∃ out, approxProject (swapPairs md) (signClip monos w) = .ok out ∧
+      (∀ c ∈ md, getV out c.2 ≤ getV out c.1) ∧
+      (∀ k, SignOk (getM monos k) (getV out k)) ∧
+      (∀ k, ¬ IsNode md k → getV out k = getV (signClip monos w) k) := by
+  have hne' : swapPairs md ≠ [] := by cases md <;> simp_all [swapPairs]
+  obtain ⟨order, _, hv, hin', hap⟩ := approxProject_ok_of_acyclic (swapPairs md) (signClip monos w)
+    hne' (acyclic_swap hacyc) (fun a ha => by rw [length_signClip]; exact hin a (isNode_swap.mp ha))
+  exact ⟨_, hap, linear_monotonic_dominance monos md w order hv
+    (fun a ha => by simpa [length_signClip] using hin' a ha) hinc⟩
+
+/-- **C06 (Linear, range dominance), order validity proved** (no scaling factor zero: F-C16-a). -/
+theorem linear_range_dominance_acyclic (monos : List Int) (rd : Pairs) (sc w2 : List Rat)
+    (hne : rd ≠ []) (hacyc : Acyclic rd) (hin : ∀ a, IsNode rd a → a < w2.length)
+    (hlen : w2.length = sc.length) (hsc : ∀ k, k < sc.length → getV sc k ≠ 0)
+    (hdir : ∀ c ∈ rd, ∀ k, (k = c.1 ∨ k = c.2) →
+        (getM monos k = 1 ∧ 0 < getV sc k) ∨ (getM monos k = -1 ∧ getV sc k < 0))
+    (hsign : ∀ k, SignOk (getM monos k) (getV w2 k)) :
+    ∃ w3, approxProject (swapPairs rd) (mulV w2 sc) = .ok w3 ∧
+      (∀ c ∈ rd, getV sc c.2 * getV (divV w3 sc) c.2 ≤ getV sc c.1 * getV (divV w3 sc) c.1) ∧
+      (∀ k, SignOk (getM monos k) (getV (divV w3 sc) k)) ∧
+      (∀ k, ¬ IsNode rd k → getV (divV w3 sc) k = getV w2 k) := by
+  have hne' : swapPairs rd ≠ [] := by cases rd <;> simp_all [swapPairs]
+  have hml : (mulV w2 sc).length = w2.length := by simp [mulV, hlen]
+  obtain ⟨order, _, hv, hin', hap⟩ := approxProject_ok_of_acyclic (swapPairs rd) (mulV w2 sc)
+    hne' (acyclic_swap hacyc) (fun a ha => by rw [hml]; exact hin a (isNode_swap.mp ha))
+  exact ⟨_, hap, linear_range_dominance monos rd sc w2 order hv
+    (fun a ha => by simpa [hml] using hin' a ha) hlen hsc hdir hsign⟩
+
+/-- **C06 feasible ⇒ unchanged (Linear, before normalisation)**, for acyclic dominance sets. -/
+theorem linear_fixpoint_acyclic (monos : List Int) (md rd : Pairs) (los his : List (Option Rat))
+    (w : List Rat) (hamd : Acyclic md) (hard : Acyclic rd)
+    (hsign : ∀ k, SignOk (getM monos k) (getV w k))
+    (hmd : ∀ c ∈ md, getV w c.2 ≤ getV w c.1)
+    (hlen : w.length = (scalings monos los his).length)
+    (hsc : ∀ k, k < (scalings monos los his).length → getV (scalings monos los his) k ≠ 0)
+    (hrd : ∀ c ∈ rd, getV (scalings monos los his) c.2 * getV w c.2 ≤
+                      getV (scalings monos los his) c.1 * getV w c.1) :
+    projectPre monos md rd los his w = .ok w := by
+  have key : ∀ cs : Pairs, Acyclic cs → ∃ o, cs ≠ [] → topoSort (swapPairs cs) = some o := by
+    intro cs hac
+    by_cases he : cs = []
+    · exact ⟨[], fun h => absurd he h⟩
+    · have hne' : swapPairs cs ≠ [] := by cases cs <;> simp_all [swapPairs]
+      obtain ⟨o, ho⟩ := topoSort_some_of_nonempty _ hne' (acyclic_swap hac)
+      exact ⟨o, fun _ => ho⟩
+  obtain ⟨o1, h1⟩ := key md hamd
+  obtain ⟨o2, h2⟩ := key rd hard
+  exact linear_fixpoint monos md rd los his w o1 o2 h1 h2 hsign hmd hlen hsc hrd
+
+/-! ### non-vacuity of the `_acyclic` forms: the diamond and the "shortcut" graph (the seeded
+mutant `C06-toposort-batch-dfs` of the real code orders exactly the latter wrongly) -/
+example : Acyclic [(0, 1), (0, 2), (1, 3), (2, 3)] := acyclic_of_lt (by decide)
+example : Acyclic [(0, 3), (0, 1), (1, 2), (2, 3)] := acyclic_of_lt (by decide)
+example : topoSort [(0, 3), (0, 1), (1, 2), (2, 3)] = some [0, 1, 2, 3] := by decide +kernel
+example : topoSort [(0, 1), (0, 2), (1, 3), (2, 3)] = some [0, 2, 1, 3] := by decide +kernel
+example : validOrder [(0, 3), (0, 1), (1, 2), (2, 3)]
+    ((topoSort [(0, 3), (0, 1), (1, 2), (2, 3)]).getD []) = true := by decide +kernel
+/-- a cycle is rejected by the hypothesis, and the model (like the code) raises on it -/
+example : ¬ Acyclic [(0, 1), (1, 0)] :=
+  fun h => h 0 (.tail (.single (show (0, 1) ∈ [(0, 1), (1, 0)] by decide))
+    (show (1, 0) ∈ [(0, 1), (1, 0)] by decide))
+example : topoSort [(0, 1), (1, 0)] = none := by decide +kernel
+/-- the shortcut graph: hypotheses of `categorical_pairs_and_bounds_acyclic` hold and the column
+is genuinely moved to a feasible one -/
+example : ∀ a, IsNode [(0, 3), (0, 1), (1, 2), (2, 3)] a → a < [5, 1, 2, -3].length := by
+  rintro a ⟨c, hc, h⟩
+  simp only [List.mem_cons, List.not_mem_nil, or_false] at hc
+  rcases hc with rfl | rfl | rfl | rfl <;> rcases h with h | h <;> subst h <;> decide
+example : Categorical.project (some 0) (some 1) [(0, 3), (0, 1), (1, 2), (2, 3)] [5, 1, 2, -3]
+    ≠ .ok [5, 1, 2, -3] := by decide +kernel
+example : feasibleB [(0, 3), (0, 1), (1, 2), (2, 3)]
+    (match Categorical.project (some 0) (some 1) [(0, 3), (0, 1), (1, 2), (2, 3)] [5, 1, 2, -3] with
       | .ok o => o | .error _ => []) = true := by decide +kernel
 
 end Tfl.C06
